@@ -621,6 +621,49 @@ ANALYSES = {'C04': an_C04_window, 'C07': an_C07, 'C09': an_C09, 'C10': an_C10, '
 
 
 # =============================================================================== pool
+XCHK_SKIP = ('VFS_LOOKUP', 'TRACE_STRING_GLOBAL', 'TRACE_STRING_NEWTHREAD', 'TRACE_STRING_EXEC', 'TRACE_STRING_PROC_EXIT',
+             'TRACE_STRING_THREADNAME', 'TRACE_STRING_THREADNAME_PREV')
+
+
+def _xchk_worker(job):
+    names, samples, seed = job
+    from pyvc import crosscheck
+    sess = Session(policy=decoders.DecoderPolicy())
+    tabs = decoders.handler_tables(sess)
+    out = {'compared': 0, 'skipped': 0, 'mismatches': []}
+    for name in names:
+        try:
+            c, sk, mm = crosscheck.crosscheck_decoder(sess, name, tabs[name][0][1], samples, seed)
+        except Unsupported:
+            continue
+        out['compared'] += c
+        out['skipped'] += sk
+        out['mismatches'] += mm[:3]
+    return out
+
+
+def engine_crosscheck(run, tier):
+    """translation validation of the encoder on sampled inputs (DESIGN 3.4): engine result == native result"""
+    sess = Session()
+    tabs = decoders.handler_tables(sess)
+    names = [n for n in sorted(tabs) if n not in XCHK_SKIP]
+    if tier != 'thorough':
+        import random
+        rnd = random.Random(run.seed)
+        names = rnd.sample(names, 32)
+    procs = min(16, os.cpu_count() or 4)
+    chunks = [names[i::procs] for i in range(procs)]
+    with mp.Pool(procs) as pool:
+        res = pool.map(_xchk_worker, [(c, 2 if tier == 'thorough' else 1, run.seed) for c in chunks if c])
+    compared = sum(r['compared'] for r in res)
+    mism = [m for r in res for m in r['mismatches']]
+    run.bounded.append({'what': 'engine cross-check (sampled, not a proof): symbolic decoder result evaluated under a model vs the real decoder on the '
+                                'concretised input', 'decoders': len(names), 'comparisons': compared, 'skipped_opaque': sum(r['skipped'] for r in res),
+                        'mismatches': len(mism)})
+    for m in mism[:3]:
+        run.engine_error('engine cross-check mismatch for %s: engine %r, native %r' % (m['decoder'], m['engine'][:120], str(m['native'])[:120]))
+
+
 def _worker(job):
     pid, names = job
     os.environ.setdefault('PYTHONHASHSEED', '0')
@@ -737,6 +780,8 @@ def standard(run, tier, pid):
     if run.pending_failures:
         from checks import c04
         c04.finish_failures(run, pid)
+    if pid == 'C07':
+        engine_crosscheck(run, tier)
     run.extra['decoders_explored'] = len(tabs)
     run.extra['paths_explored'] = sum(r.get('npaths', 0) for r in recs if r['name'].endswith('/total'))
     for r in recs[:3]:
